@@ -7,7 +7,8 @@
    (model/MldsaPoly.v, model/Mldsa.v). *)
 From Coq Require Import List ZArith NArith Bool Lia.
 From Tink Require Import Bytes Wrap MldsaScalar MldsaScalarProofs MldsaScalarProofs2 MldsaTableProofs
-  MldsaKernels MldsaKernelsProofs MldsaPoly Mldsa.
+  MldsaKernels MldsaKernelsProofs MldsaPoly Mldsa
+  MldsaPackProofs MldsaHintProofs MldsaUseHintProofs MldsaProofs MldsaExamples.
 Import ListNotations.
 Local Open Scope Z_scope.
 
@@ -137,3 +138,158 @@ Proof.
       k_highBits_eq, k_lowBits_eq, k_makeHint_eq, k_useHint_eq, k_centeredAbs_eq, k_centeredMax_eq.
 Qed.
 Print Assumptions C10_model_kernels_are_generated_kernels.
+
+(* ------------------------------------------------------------------ *)
+(* 3. the hint lemma (FIPS 204, Algorithms 39/40) on the generated code *)
+(* ------------------------------------------------------------------ *)
+(* If |z mod± q| <= gamma2 then for every r: with h = z.makeHint(gamma2, r),
+   r.useHint(gamma2, h) = (r + z).highBits(gamma2).  This is what lets the
+   verifier recover HighBits(w - c*s2) from w - c*s2 + c*t0 and the hint. *)
+Theorem C10_useHint_makeHint : forall z r g h,
+  valid_gamma2 g -> 0 <= z < q -> 0 <= r < q -> Z.abs (cmod z q) <= g ->
+  mldsa_rZq_makeHint z g r = Some h ->
+  mldsa_rZq_useHint r g h = mldsa_rZq_highBits (mldsa_rZq_add r z) g.
+Proof. exact useHint_makeHint. Qed.
+Print Assumptions C10_useHint_makeHint.
+
+Example C10_useHint_makeHint_inhabited :
+  valid_gamma2 95232 /\ 0 <= 8380416 < q /\ 0 <= 190464 < q /\ Z.abs (cmod 8380416 q) <= 95232 /\
+  mldsa_rZq_makeHint 8380416 95232 190464 = Some 0.
+Proof. exact ex_useHint_makeHint_inhabited. Qed.
+
+(* ------------------------------------------------------------------ *)
+(* 4. bit packing (Algorithms 16-19)                                   *)
+(* ------------------------------------------------------------------ *)
+Local Open Scope nat_scope.
+
+Theorem C10_simpleBitPack_length : forall bits p, length p = degree ->
+  length (simpleBitPack bits p) = 32 * bits.
+Proof. exact simpleBitPack_length. Qed.
+Print Assumptions C10_simpleBitPack_length.
+
+Theorem C10_simpleBitPack_bytes : forall bits p, length p = degree -> wfb (simpleBitPack bits p).
+Proof. exact simpleBitPack_wf. Qed.
+Print Assumptions C10_simpleBitPack_bytes.
+
+Theorem C10_simpleBitUnpack_simpleBitPack : forall bits p,
+  0 < bits -> length p = degree ->
+  Forall (fun c => 0 <= c < 2 ^ Z.of_nat bits)%Z p ->
+  simpleBitUnpack bits (simpleBitPack bits p) = p.
+Proof. exact simpleBitUnpack_simpleBitPack. Qed.
+Print Assumptions C10_simpleBitUnpack_simpleBitPack.
+
+Theorem C10_bitPack_length : forall a bits p, length p = degree -> length (bitPack a bits p) = 32 * bits.
+Proof. exact bitPack_length. Qed.
+Print Assumptions C10_bitPack_length.
+
+(* coefficients c in Z_q with a - c (mod q) < 2^bits: for (a, bits) =
+   (eta, etaBits), (2^12, 13), (gamma1, 1 + log2 gamma1) these are the ranges
+   [-eta, eta], (-2^12, 2^12], (-gamma1, gamma1] *)
+Theorem C10_bitUnpack_bitPack : forall a bits p,
+  0 < bits -> length p = degree -> (0 <= a < q)%Z ->
+  Forall (fun c => 0 <= c < q /\ (a - c) mod q < 2 ^ Z.of_nat bits)%Z p ->
+  bitUnpack a bits (bitPack a bits p) = p.
+Proof. exact bitUnpack_bitPack. Qed.
+Print Assumptions C10_bitUnpack_bitPack.
+
+Example C10_bitUnpack_bitPack_inhabited :
+  let p := repeat (q - 2)%Z degree in
+  0 < 3 /\ length p = degree /\ (0 <= 2 < q)%Z /\
+  Forall (fun c => 0 <= c < q /\ (2 - c) mod q < 2 ^ Z.of_nat 3)%Z p.
+Proof. exact ex_bitUnpack_bitPack_inhabited. Qed.
+
+(* ------------------------------------------------------------------ *)
+(* 5. hint packing (Algorithms 20/21): round trip and strictness        *)
+(* ------------------------------------------------------------------ *)
+(* HintBitUnpack accepts a byte string iff it is THE canonical encoding of a
+   0/1 vector of weight <= omega: non-increasing indices, bad cumulative
+   counts and non-zero padding are all rejected, and no hint vector has two
+   accepted encodings. *)
+Theorem C10_hintBitUnpack_iff : forall omega k enc h,
+  omega <= 255 -> wfb enc ->
+  (hintBitUnpack omega k enc = Ok h <->
+   enc = hintBitPack omega h /\ weight h <= omega /\ length h = k /\
+   Forall (fun p => binary p /\ length p = degree) h).
+Proof. exact hintBitUnpack_iff. Qed.
+Print Assumptions C10_hintBitUnpack_iff.
+
+Theorem C10_hintBitUnpack_hintBitPack : forall omega k h,
+  omega <= 255 -> length h = k ->
+  Forall (fun p => binary p /\ length p = degree) h -> weight h <= omega ->
+  hintBitUnpack omega k (hintBitPack omega h) = Ok h.
+Proof. exact hintBitUnpack_hintBitPack. Qed.
+Print Assumptions C10_hintBitUnpack_hintBitPack.
+
+Theorem C10_hintBitUnpack_unique_encoding : forall omega k e1 e2 h,
+  wfb e1 -> wfb e2 -> hintBitUnpack omega k e1 = Ok h -> hintBitUnpack omega k e2 = Ok h -> e1 = e2.
+Proof. exact hintBitUnpack_injective. Qed.
+Print Assumptions C10_hintBitUnpack_unique_encoding.
+
+Example C10_hint_inhabited :
+  let h := [upd 3 1%Z (upd 200 1%Z zero_poly); zero_poly] in
+  hintBitUnpack 5 2 (hintBitPack 5 h) = Ok h /\ hintBitPack 5 h = [3; 200; 0; 0; 0; 2; 2]%N /\
+  hintBitUnpack 5 2 [200; 3; 0; 0; 0; 2; 2]%N = Err /\    (* indices not increasing *)
+  hintBitUnpack 5 2 [3; 3; 0; 0; 0; 2; 2]%N = Err /\      (* repeated index *)
+  hintBitUnpack 5 2 [3; 200; 0; 0; 1; 2; 2]%N = Err /\    (* non-zero padding *)
+  hintBitUnpack 5 2 [3; 200; 0; 0; 0; 2; 1]%N = Err /\    (* counts decrease *)
+  hintBitUnpack 5 2 [3; 200; 0; 0; 0; 2; 6]%N = Err.       (* count beyond omega *)
+Proof. exact ex_hint_inhabited. Qed.
+
+(* ------------------------------------------------------------------ *)
+(* 6. key and signature encodings                                       *)
+(* ------------------------------------------------------------------ *)
+Theorem C10_table1_parameter_sets :
+  MLDSA44 = mkParams 39 128 17 95232 4 4 2 80 3 6 /\
+  MLDSA65 = mkParams 49 192 19 261888 6 5 4 55 4 4 /\
+  MLDSA87 = mkParams 60 256 19 261888 8 7 2 75 3 4.
+Proof. exact table1_params. Qed.
+Print Assumptions C10_table1_parameter_sets.
+
+Theorem C10_table2_lengths :
+  (publicKeyLength MLDSA44, secretKeyLength MLDSA44, signatureLength MLDSA44) = (1312, 2560, 2420) /\
+  (publicKeyLength MLDSA65, secretKeyLength MLDSA65, signatureLength MLDSA65) = (1952, 4032, 3309) /\
+  (publicKeyLength MLDSA87, secretKeyLength MLDSA87, signatureLength MLDSA87) = (2592, 4896, 4627).
+Proof. exact table2_lengths. Qed.
+Print Assumptions C10_table2_lengths.
+
+Theorem C10_pkEncode_length : forall P pk, polys (p_k P) (pk_t1 pk) ->
+  length (pkEncode pk) = publicKeyLength P.
+Proof. exact pkEncode_length. Qed.
+Print Assumptions C10_pkEncode_length.
+
+Theorem C10_skEncode_length : forall P sk,
+  polys (p_l P) (sk_s1 sk) -> polys (p_k P) (sk_s2 sk) -> polys (p_k P) (sk_t0 sk) ->
+  length (skEncode P sk) = secretKeyLength P.
+Proof. exact skEncode_length. Qed.
+Print Assumptions C10_skEncode_length.
+
+Theorem C10_sigEncode_length : forall P c z h,
+  polys (p_l P) z -> length h = p_k P -> weight h <= p_omega P ->
+  length (sigEncode P c z h) = signatureLength P.
+Proof. exact sigEncode_length. Qed.
+Print Assumptions C10_sigEncode_length.
+
+(* decoders accept only the exact length *)
+Theorem C10_decoders_check_length :
+  (forall P sigma r, sigDecode P sigma = Some r -> length sigma = signatureLength P) /\
+  (forall shake256 P enc pk, pkDecode shake256 P enc = Some pk -> length enc = publicKeyLength P) /\
+  (forall P enc sk, skDecode P enc = Some sk -> length enc = secretKeyLength P).
+Proof. repeat split; [exact sigDecode_length | exact pkDecode_length | exact skDecode_length]. Qed.
+Print Assumptions C10_decoders_check_length.
+
+(* SigDecode inverts SigEncode *)
+Theorem C10_sigDecode_sigEncode : forall P c z h,
+  p_omega P <= 255 -> (0 <= gamma1 P < q)%Z ->
+  length c = ctLen P -> polys (p_l P) z ->
+  Forall (Forall (fun x => 0 <= x < q /\ (gamma1 P - x) mod q < 2 ^ Z.of_nat (zBits P))%Z) z ->
+  length h = p_k P -> Forall (fun p => binary p /\ length p = degree) h -> weight h <= p_omega P ->
+  sigDecode P (sigEncode P c z h) = Some (c, z, h).
+Proof. exact sigDecode_sigEncode. Qed.
+Print Assumptions C10_sigDecode_sigEncode.
+
+Example C10_sigDecode_sigEncode_inhabited :
+  let P := MLDSA44 in
+  let c := zeros 32 in let z := repeat zero_poly 4 in let h := repeat zero_poly 4 in
+  p_omega P <= 255 /\ (0 <= gamma1 P < q)%Z /\ length c = ctLen P /\ polys (p_l P) z /\
+  length h = p_k P /\ weight h <= p_omega P /\ sigDecode P (sigEncode P c z h) = Some (c, z, h).
+Proof. exact ex_sigDecode_sigEncode_inhabited. Qed.
